@@ -190,7 +190,7 @@ func ThoroughHeaders() HeaderUniverse {
 var PathSweepHeaders = []HeaderCombo{{}, {CT: JSON, Accept: JSON, Body: true, XC: "1"}}
 
 var baseTokens = []string{"a", "b", "{x}", "{y}", "{n:[0-9]+}", "{w:[a-z]}", "{s}.js", "{t:*}", "a:go", "{x}:go", "pre_{p}", "a.{p}.js"}
-var baseRoots = []string{"/", "/a", "/a/b", "/{r}", "/a/{r}"}
+var baseRoots = []string{"/", "/a", "/a/b", "/{r}", "/a/{r}", "/a/"}
 var baseSegs = []string{"a", "b", "7", "ab", "x.js", "a.js", "a:go", "7:go", "", "pre_z", "é{x}", "7go", "7:ungo"}
 
 // JSR311 documents literals, {v}, {v:regex} and the tail wildcard only.
@@ -228,12 +228,12 @@ func PathUniverse(r rm.Router, tier string, small bool) Universe {
 	if thorough {
 		if r == rm.Curly {
 			u.Tokens = append(append([]string{}, u.Tokens...), "pre_{p}.js", "{n:[0-9]}", "b:run")
-			u.Roots = append(append([]string{}, u.Roots...), "/{r:[0-9]+}", "/{q:[a-z]+}", "/a/", "/a/{r}/c", "/b")
+			u.Roots = append(append([]string{}, u.Roots...), "/{r:[0-9]+}", "/{q:[a-z]+}", "/a/{r}/c", "/b")
 			u.Segs = append(append([]string{}, u.Segs...), "42", ".js", strings.Repeat("z", 300), "a:run", "a/b")
 			u.Lead = true
 		} else {
 			u.Tokens = append(append([]string{}, u.Tokens...), "{n:[0-9]}")
-			u.Roots = append(append([]string{}, u.Roots...), "/{r:[0-9]+}", "/a/", "/a/{r}/c", "/b")
+			u.Roots = append(append([]string{}, u.Roots...), "/{r:[0-9]+}", "/a/{r}/c", "/b")
 			u.Segs = append(append([]string{}, u.Segs...), "42", "é", strings.Repeat("z", 300), "a/b")
 		}
 		u.QMethods = []string{"GET", "POST", "PUT", "DELETE", "OPTIONS"}
